@@ -11,8 +11,10 @@ def main():
             print("translator %s: %s" % (k, v["failed"]))
     ok, log = lib.coq_make()
     if not ok:
-        print(log[-6000:])
-        print("setup: Coq build failed")
-        return 1
+        # not fatal: every check rebuilds its own closure and fails closed on a broken file
+        for x in lib.coq_failed_files(log):
+            print("setup: %s:%s %s" % (x["file"], x["line"], x["error"].split("\n")[0]))
+        print("setup: Coq build incomplete (see above); checks depending on those files will report it")
+        return 0
     print("setup: Coq development built")
     return 0
